@@ -357,7 +357,11 @@ class Report:
         if not found_input:
             line += ' no-failing-input-found'
         self.violations.append((path, what))
-        if len(self.violations) <= 20:
+        # print at most 20 violations with a failing input and 8 without one (a broken tie often repeats itself for every
+        # generated case and must not crowd out the failing inputs the oracle finds afterwards)
+        key = '_printed_in' if found_input else '_printed_no'
+        setattr(self, key, getattr(self, key, 0) + 1)
+        if getattr(self, key) <= (20 if found_input else 8):
             print(line)
             print('  ' + what[:300])
         sys.stdout.flush()
